@@ -77,6 +77,10 @@ func (m *c09Mon) AfterStore(n *cluster.SNode, call *cluster.StoreCall) {
 
 func c09Gen(rng *core.Rng, tier string) *harness.Plan {
 	p := &harness.Plan{Seed: rng.Uint64(), Params: map[string]int64{}}
+	if rng.Chance(0.3) {
+		c09MemGen(rng, tier, p) // changing membership on the membership rig, see c09mem.go
+		return p
+	}
 	p.Params["nodes"] = 7
 	if rng.Chance(0.3) {
 		p.Params["nodes"] = int64(8 + rng.IntN(2))
@@ -116,6 +120,9 @@ func c09Gen(rng *core.Rng, tier string) *harness.Plan {
 }
 
 func c09Exec(p *harness.Plan) *harness.Outcome {
+	if p.P("mem", 0) == 1 {
+		return c09MemExec(p)
+	}
 	r, err := newClusterRun("C09", p)
 	if err != nil {
 		o := harness.NewOutcome()
